@@ -12,7 +12,6 @@ import (
 	"regexp"
 	"strings"
 
-	"golang.org/x/tools/go/ssa"
 )
 
 func ruleStreamSeparators(rule string) func(p *Prog, r *Result) {
@@ -23,7 +22,7 @@ func ruleStreamSeparators(rule string) func(p *Prog, r *Result) {
 				continue
 			}
 			family := ""
-			for _, c2 := range allCalls([]*ssa.Function{cs.Fn}) {
+			for _, c2 := range allCalls(samePkgClosure(cs.Fn)) { // the decoder may be called from a helper
 				switch {
 				case strings.HasPrefix(c2.Name, "gopkg.in/yaml.v3.Unmarshal"):
 					family = "yaml"
